@@ -182,6 +182,8 @@ type c16Env struct {
 	base   string
 	conf   c16Config
 	layout string
+	// included files that are open: uri, saved text, editor text
+	edited [][3]string
 }
 
 func c16Setup(c *core.Ctx, layout string, conf c16Config, idx int) *c16Env {
@@ -216,19 +218,31 @@ func c16Setup(c *core.Ctx, layout string, conf c16Config, idx int) *c16Env {
 	s := wire.New()
 	s.Initialize(wire.InitOpts{Root: rootOpt, Options: fmt.Sprintf(`{"completion":{"maxResults":%d,"fuzzyMatching":%v,"showCounts":%v}}`, conf.Max, conf.Fuzzy, conf.Counts)})
 	s.Initialized()
+	env := &c16Env{s: s, uri: wire.URI(filepath.Join(dir, "main.journal")), base: base, conf: conf, layout: layout}
 	for _, oe := range openEdited {
 		u := wire.URI(filepath.Join(dir, oe[0]))
 		s.DidOpen(u, oe[1])
-		s.DidChangeFull(u, oe[2], 2)
+		env.edited = append(env.edited, [3]string{u, oe[1], oe[2]})
 	}
-	return &c16Env{s: s, uri: wire.URI(filepath.Join(dir, "main.journal")), base: base, conf: conf, layout: layout}
+	return env
 }
 
 func (e *c16Env) complete(line string, cursor int) ([]c16Item, int, string) {
 	text := e.base + "\n" + line + "\n"
 	lineNo := strings.Count(e.base, "\n") + 1
 	e.s.DidOpen(e.uri, text)
+	if len(e.edited) > 0 {
+		// the same request once before the included files are edited: what it
+		// leaves behind must not answer the request made after the edits
+		e.s.Call("textDocument/completion", wire.DocPos(e.uri, lineNo, cursor))
+		for _, oe := range e.edited {
+			e.s.DidChangeFull(oe[0], oe[2], 2)
+		}
+	}
 	r := e.s.Call("textDocument/completion", wire.DocPos(e.uri, lineNo, cursor))
+	for _, oe := range e.edited {
+		e.s.DidChangeFull(oe[0], oe[1], 3)
+	}
 	e.s.DidClose(e.uri)
 	var v struct {
 		Items []c16Item `json:"items"`
